@@ -98,10 +98,16 @@ def plan(seed, subbatch):
     ops = [{"op": "new", "preload": [list(r) for r in rows[:k]]}]
     ops += world.schedule(feed, rows[k:], sizes, extras)
     fired["preload_%s" % ("none" if k == 0 else "one" if k == 1 else "all" if k == len(rows) else "some")] += 1
+    lifespan = None
+    if route in ("manager", "indicator", "hexital_level") and sub_rng(seed, "lifespan").random() < 0.1:
+        # a lifespan next to the collapsing timeframe: the surviving buckets are still the full resampled ones
+        # (not for a Hexital member: its manager is derived from trimmed base candles, the known C08 finding)
+        lifespan = tf_s * sub_rng(seed, "lifespan-k").randint(2, 30)
+        fired["lifespan_configured"] += 1
     offset = cfg.choice((None, None, None, 60, 330, -210, 345))
     neighbours = sample_neighbours(sub_rng(seed, "neighbours"), tf, offset)
     return {"format": 1, "property": ID, "seed": seed, "subbatch": subbatch,
-            "config": {"neighbours": neighbours, "process_tz": env[0] if env else None, "route": route, "tf": tf, "base_s": base_s, "level_tf": level, "siblings": siblings,
+            "config": {"neighbours": neighbours, "lifespan_s": lifespan, "process_tz": env[0] if env else None, "route": route, "tf": tf, "base_s": base_s, "level_tf": level, "siblings": siblings,
                        # timezone-aware streams (fixed offsets that do not divide the larger timeframes)
                        "utc_offset_min": offset},
             "ops": ops, "fired": dict(fired)}
@@ -136,7 +142,7 @@ def _execute(trace):
                     neigh = Neighbours(cfg.get("neighbours"), rows)     # built BEFORE the subject
                     if neigh.items:
                         run.stats["reach:neighbour_objects_in_process"] += len(neigh.items)
-                    subject, manager, view = run.call(len(rows), build_route, route, tf, rows, False, None, None, None,
+                    subject, manager, view = run.call(len(rows), build_route, route, tf, rows, False, cfg.get("lifespan_s"), None, None,
                                                       cfg.get("level_tf"), cfg.get("siblings"))
                     if cfg.get("siblings"):
                         run.stats["reach:hexital_with_sibling_timeframe_members"] += 1
@@ -161,6 +167,9 @@ def _execute(trace):
                 raise Violation("exception", route, e.site, {"error": repr(e.exc), "op": kind})
             got = snap_cores(view())
             want = [tuple(r) for r in refmodels.resample(delivered, tf_s)]
+            lifespan = cfg.get("lifespan_s")
+            if lifespan is not None and want:
+                want = [want[k] for k in refmodels.trim([w[0] for w in want], lifespan)]
             run.observe(kind, got)
             if got != want:
                 j = next((x for x in range(min(len(got), len(want))) if got[x] != want[x]),
@@ -176,7 +185,7 @@ def _execute(trace):
                 raise Violation("resample", route, what,
                                 {"index": j, "got": g, "want": w, "n_got": len(got), "n_want": len(want)})
             # implied, but they localise a failure
-            if sum(c[5] for c in got) != sum(r[5] for r in delivered):
+            if lifespan is None and sum(c[5] for c in got) != sum(r[5] for r in delivered):
                 raise Violation("volume-conservation", route, "sum", {})
             if any(got[x][0] >= got[x + 1][0] for x in range(len(got) - 1)):
                 raise Violation("strictly-increasing", route, "timestamps", {})
